@@ -1,5 +1,9 @@
 """Contracts for selfies/utils/selfies_utils.py (tokenisation)."""
 from pyvc.api import *
+import re
+
+# well formed in the sense of C14: bracketed symbols with no bracket or dot inside, single dots only after a symbol
+WF_SELFIES = re.compile(r"(?:\[[^\[\].]*\]\.?)*")
 
 
 @contract("selfies/utils/selfies_utils.py::split_selfies", props=["C14", "C13", "C08"])
@@ -29,7 +33,11 @@ def len_selfies(selfies: str):
     # bracket scanner of split_selfies is proved to yield nothing / something (its clauses no-bracket-no-symbols and
     # items-concatenate-to-the-input) get the matching verdict here.  Equality with the NUMBER of yielded items on every
     # well-formed string needs induction over the string and stays with the bounded run (C14:len).
-    ensures(isinstance(result, int) and 0 <= result and result <= 2 * len(selfies), tag="C14:len-is-a-count")
-    ensures(result == selfies.count("[") + selfies.count("."), tag="C14:len-counts-opening-brackets-and-dots")
-    ensures(iff(result == 0, selfies.find("[") == -1 and selfies.find(".") == -1), tag="C14:len-zero-iff-no-bracket-no-dot")
-    ensures(implies(selfies.find("[") >= 0, result >= 1), tag="C14:len-positive-when-split-yields")
+    ensures(isinstance(result, int), tag="C14:len-is-an-int")
+    ensures(implies(re_fullmatch(WF_SELFIES, selfies), 0 <= result and result <= 2 * len(selfies)), tag="C14:len-is-a-count")
+    # judged on the strings the statement quantifies over only (a count that differs on malformed strings is no alarm)
+    ensures(implies(re_fullmatch(WF_SELFIES, selfies), result == selfies.count("[") + selfies.count(".")),
+            tag="C14:len-counts-opening-brackets-and-dots")
+    ensures(implies(re_fullmatch(WF_SELFIES, selfies), iff(result == 0, selfies == "")), tag="C14:len-zero-iff-empty")
+    ensures(implies(re_fullmatch(WF_SELFIES, selfies) and selfies.find("[") >= 0, result >= 1),
+            tag="C14:len-positive-when-split-yields")
